@@ -67,6 +67,53 @@ func (f *btcroot) Exec(r *hx.Run, op []string) string {
 				fmt.Sprintf("ComputeMerkleRoot over %d hashes = %x, reference double-SHA256 Merkle root = %x", len(hs), got[:], want[:]))
 		}
 		return hx.Hex(got[:])
+	case "rootpar":
+		// concurrent use: g goroutines compute roots of lists of sizes n, n+1, ... at the same time, several rounds;
+		// every result must equal the independent reference (ComputeMerkleRoot has no shared state to protect)
+		var g, rounds, n int
+		fmt.Sscan(op[1], &g)
+		fmt.Sscan(op[2], &rounds)
+		fmt.Sscan(op[3], &n)
+		seed := hx.UnHex(op[4])
+		lists := make([][]common.Uint256, g)
+		wants := make([]common.Uint256, g)
+		for i := range lists {
+			lists[i] = make([]common.Uint256, n+i)
+			for j := range lists[i] {
+				h := sha256.Sum256(append(append([]byte{byte(i), byte(j), byte(j >> 8)}, seed...), byte(i*7+j)))
+				lists[i][j] = h
+			}
+			wants[i] = refRoot(lists[i])
+		}
+		bad := make(chan string, g*rounds+1)
+		done := make(chan struct{})
+		for i := 0; i < g; i++ {
+			go func(i int) {
+				defer func() {
+					if e := recover(); e != nil {
+						bad <- fmt.Sprintf("goroutine %d panicked: %v", i, e)
+					}
+					done <- struct{}{}
+				}()
+				for k := 0; k < rounds; k++ {
+					work := append([]common.Uint256{}, lists[i]...)
+					if got := common.ComputeMerkleRoot(work); got != wants[i] {
+						bad <- fmt.Sprintf("goroutine %d round %d: root over %d hashes = %x, reference %x", i, k, len(lists[i]), got[:], wants[i][:])
+						return
+					}
+				}
+			}(i)
+		}
+		for i := 0; i < g; i++ {
+			<-done
+		}
+		select {
+		case msg := <-bad:
+			r.Viol("C03:root-differs-under-concurrent-calls", "ComputeMerkleRoot called from "+fmt.Sprint(g)+" goroutines at once: "+msg)
+			return "BAD"
+		default:
+		}
+		return "ok"
 	case "blockroot":
 		var n, nonce int
 		di, dj := -1, -1
@@ -188,6 +235,12 @@ func (f *btcroot) Gen(r *hx.Run) {
 			hs[i] = r.Rng.Bytes(32)
 		}
 		emit("big", hs)
+	}
+	for k := 0; k < r.Pick(6, 60); k++ {
+		id++
+		r.Case(fmt.Sprintf("par-%d", k))
+		r.Do(fmt.Sprintf("rootpar %d %d %d %s", 4+r.Rng.Intn(5), r.Pick(150, 600), 1+r.Rng.Intn(40), hx.Hex(r.Rng.Bytes(8))))
+		r.Nontrivial(fmt.Sprintf("par/%d", k))
 	}
 	for n := 0; n <= r.Pick(40, 300); n++ {
 		id++
